@@ -131,11 +131,6 @@ func (p *Path) decodeInto(e *codecEntry, target Value) bool {
 }
 
 func init() {
-	marshal := func(kind string) intrinsicFn {
-		return func(p *Path, fn *ssa.Function, a []Value) Value {
-			return Tuple{sliceOfBytes(p.codecEncode(kind, a[0])), Iface{}}
-		}
-	}
 	unmarshal := func(kind string) intrinsicFn {
 		return func(p *Path, fn *ssa.Function, a []Value) Value {
 			e := p.codecLookup(bytesOf(p, a[0]))
@@ -146,8 +141,6 @@ func init() {
 		}
 	}
 	// encoding/json itself is modelled structurally (jsonmodel.go)
-	reg("github.com/nikkolasg/hexjson.Marshal", marshal("json"))
-	reg("github.com/nikkolasg/hexjson.Unmarshal", unmarshal("json"))
 	reg("github.com/BurntSushi/toml.Unmarshal", unmarshal("toml"))
 	// toml.NewEncoder(w).Encode(v) / toml.NewDecoder(r).Decode(v)
 	reg("github.com/BurntSushi/toml.NewEncoder", func(p *Path, fn *ssa.Function, a []Value) Value {
